@@ -86,12 +86,19 @@ func (a *An) c15VerifyTable(rule string) {
 			n string
 			v int64
 		}{{"their=0", 0}, {"their=min-1", min - 1}, {"their=min", min}, {"their=big", min + 2000}} {
-			for _, co := range []string{"own=our", "own≠our"} {
+			for _, co := range []string{"own=our", "own≠our", "own=0"} {
 				for _, ct := range []string{"peer=0", "peer=their", "peer≠their"} {
 					c := tc{name: our.n + "," + their.n + "," + co + "," + ct, their: their.v, our: our.v}
-					if co == "own=our" {
+					switch co {
+					case "own=our":
 						c.cOur = our.v
-					} else {
+					case "own=0":
+						// the own tag is generated lazily: it can still be unset when a message arrives
+						if our.v == 0 {
+							continue
+						}
+						c.cOur = 0
+					default:
 						c.cOur = our.v + 7777
 					}
 					switch ct {
